@@ -324,6 +324,58 @@ func bbDeliversWhenIdle(c *hlib.Ctx) {
 	c.Res.ExtraCoverage["blackbox_idle_runs"] = runs
 }
 
+// bbPollerStaysPrompt (C12, polling mode): after a long quiet period the poller still looks at the ring every
+// interval: a Write made then reaches the wrapped writer within a small multiple of the interval.  Reading of
+// "promptly" committed to here: 250 poll intervals (0.5 s for the 2 ms used) - two orders of magnitude of slack for
+// a loaded machine, and still below what a poller that backs off while idle would take.
+func bbPollerStaysPrompt(c *hlib.Ctx) {
+	const interval = 2 * time.Millisecond
+	const bound = 250 * interval
+	type res struct {
+		idle  time.Duration
+		delay time.Duration
+		ok    bool
+	}
+	out := make([]res, 4)
+	var wg sync.WaitGroup
+	for k := range out {
+		wg.Add(1)
+		go func(k int) {
+			defer wg.Done()
+			sink := &bbSink{g: newGate(true)}
+			dw := diode.NewWriter(sink, 16, interval, func(int) {})
+			idle := time.Duration(1100+150*k) * time.Millisecond
+			time.Sleep(idle)
+			t0 := time.Now()
+			dw.Write([]byte("{\"w\":\"late\"}\n"))
+			deadline := t0.Add(bbLimit)
+			ok := false
+			for time.Now().Before(deadline) {
+				if len(sink.snapshot()) == 1 {
+					ok = true
+					break
+				}
+				time.Sleep(time.Millisecond)
+			}
+			out[k] = res{idle, time.Since(t0), ok}
+			within(func() { dw.Close() })
+		}(k)
+	}
+	wg.Wait()
+	var worst time.Duration
+	for _, r := range out {
+		if r.delay > worst {
+			worst = r.delay
+		}
+		if !r.ok || r.delay > bound {
+			c.Violate(hlib.Violation{Key: "poller-delivery-late", Monitor: "black-box poller-stays-prompt",
+				Desc: fmt.Sprintf("polling mode, interval %v: after %v without traffic a Write reached the wrapped writer only after %v (delivered: %v); bound %v = 250 intervals", interval, r.idle, r.delay, r.ok, bound),
+				Case: map[string]interface{}{"scenario": "poller-stays-prompt", "poll": interval.String(), "idle": r.idle.String()}, Observed: r.delay.String(), Expected: "<= " + bound.String()})
+		}
+	}
+	c.Res.ExtraCoverage["blackbox_poller_prompt_worst_delay"] = worst.String()
+}
+
 func blackBox(c *hlib.Ctx, prop string) {
 	switch prop {
 	case "C10":
@@ -334,5 +386,6 @@ func blackBox(c *hlib.Ctx, prop string) {
 	case "C12":
 		bbDeliversWhenIdle(c)
 		bbCloseDrains(c)
+		bbPollerStaysPrompt(c)
 	}
 }
